@@ -17,11 +17,67 @@ def configs(tier):
     return [dict(base, **c) for c in cs]
 
 
+def mutex_cond_part(run, tier):
+    """the other semaphore of the repository: mutex + condition variable (platform/posix/src/nsync_semaphore_mutex.c, and the same
+    algorithm in the C++11 build), binary; SemMC.tla, every transition replayed on the real file over a modelled pthread layer"""
+    exe = build("h_semm")
+    cs = [dict(NP=1, WOps=1, POps=1, Timed=False, DL=1, MaxNow=0, F=1),
+          dict(NP=2, WOps=2, POps=1, Timed=False, DL=1, MaxNow=0, F=2),
+          dict(NP=1, WOps=2, POps=2, Timed=True, DL=1, MaxNow=2, F=2),
+          dict(NP=2, WOps=2, POps=1, Timed=True, DL=1, MaxNow=2, F=2)]
+    if tier == "thorough":
+        cs += [dict(NP=2, WOps=3, POps=2, Timed=False, DL=1, MaxNow=0, F=3),
+               dict(NP=2, WOps=2, POps=2, Timed=True, DL=2, MaxNow=3, F=3)]
+    wanted = {"Binary", "NoFreeSuccess", "TimeoutHonest", "NoLostPost", "PendingIsVisible", "NoStuck"}
+    for ci, c in enumerate(cs):
+        c = dict(c, defaultInitValue=0)
+        cfg = os.path.join(WORK, "tlc", "MC_SemMC_%d.cfg" % ci)
+        write_cfg(cfg, "SpecU", c, [], constraints=["InitPrint"], action_constraints=["Edge"])
+        g, info = tlcgraph.run_tlc_graph(os.path.join(SPEC, "SemMC.tla"), cfg, workers=4, cwd=SPEC)
+        if not info["ok"]:
+            raise ToolFailure("TLC failed on SemMC.tla: " + "\n".join(info["log"][-30:]))
+        tours = tlcgraph.build_tours(g)
+        sched = os.path.join(WORK, "tlc", "semmc_%d.sched" % ci)
+        init = "harness=h_semm " + " ".join("%s=%s" % (k, int(v) if isinstance(v, bool) else v) for k, v in c.items())
+        steps = tlcgraph.write_schedule(sched, g, tours, init, obs_fmt=tlcgraph.fmt_obs_noghost)
+        res = run_harness(exe, [sched, REPLAYS])
+        st = res["stats"]
+        run.add("states", info["distinct"]); run.add("transitions", len(g.edges))
+        run.add("traces_validated_against_impl", st.get("matched", 0))
+        run.add("evaluations", st.get("tours", 0)); run.add("distinct_nontrivial", st.get("nontrivial", 0))
+        run.add("transitions_replayed", steps)
+        run.cov["configs"].append({"spec": "SemMC", "constants": init, "states": info["distinct"], "transitions": len(g.edges), "tours": len(tours),
+                                   "matched": st.get("matched", 0), "diverged": st.get("diverged", 0), "tlc_wall_s": round(info["wall"], 1)})
+        if res["mismatch"]:
+            run.note("DIVERGENCE in SemMC (spec/code, not a violation by itself): " + res["mismatch"])
+            run.cov["conformant"] = False
+        for v in res["viols"]:
+            run.violation("%s|%s|mutex-cond" % (v[0], v[1]), v[4], v[5])
+        for k, f in enumerate(tlcgraph.analyse(g)):
+            tag = "TLC|%s|%s|SemMC %d" % (f["name"], f["label"], ci)
+            if f["name"] not in wanted:
+                continue
+            path = os.path.join(REPLAYS, "C12_semmc%d_%s_%d.sched" % (ci, f["name"], k))
+            tlcgraph.write_schedule(path, g, [f["path"]], init, obs_fmt=tlcgraph.fmt_obs_noghost)
+            r2 = run_harness(exe, [path, REPLAYS])
+            if r2["viols"] or r2["stats"].get("matched", 0) == 1:
+                run.violation(tag, path, "SemMC.tla refutes %s; replayed on the real nsync_semaphore_mutex.c: %s" % (f["name"], r2["viols"][0][5] if r2["viols"] else "the code follows the counterexample in lock-step to the end"))
+        for k, df in enumerate(res.get("divfiles", [])[:4]):
+            # the diverging behaviour continued with random schedules, plain accesses to the semaphore's word as scheduling points too
+            # (a store moved out of the mutex races with the waiter's reads)
+            rz = run_harness(exe, ["from", df, "2000", str(seed() + k), REPLAYS], env={"VERIF_PLAIN": "1"})
+            run.add("evaluations", 2000)
+            for v in rz["viols"]:
+                run.violation("%s|%s|mutex-cond continue" % (v[0], v[1]), v[4], v[5])
+        os.unlink(sched)
+
+
 def main(tier, replay=None):
     run = Run("C12", tier, "model_checking")
     exe = build("h_sem")
     if replay:
-        res = run_harness(exe, [replay, REPLAYS])
+        rexe, renv = replay_target(replay, "h_sem")
+        res = run_harness(rexe, [replay, REPLAYS], env=renv)
         for v in res["viols"]:
             run.violation("%s|%s" % (v[0], v[1]), replay, v[5])
         return run.finish()
@@ -63,6 +119,7 @@ def main(tier, replay=None):
         for v in res["viols"]:
             run.violation("%s|%s" % (v[0], v[1]), v[4], v[5])
         os.unlink(sched)
+    mutex_cond_part(run, tier)
     run.cov.setdefault("conformant", True)
     if tier == "thorough" or True:
         # liveness under fairness on the smallest timed and untimed configurations
